@@ -566,6 +566,18 @@ def rule_no_inplace_mutation(rep: Report, repo: Repo):
 
 def _arg_fresh(caller: FuncAnalysis, arg: ast.AST, env, an: Analyser):
     """True if the argument is (an element of) a container built fresh by the package."""
+    # variables bound by enclosing comprehensions take the element status of what they iterate over
+    comps = []
+    p = getattr(arg, "_parent", None)
+    while p is not None and p is not caller.func:
+        if isinstance(p, (ast.ListComp, ast.SetComp, ast.GeneratorExp, ast.DictComp)):
+            comps.append(p)
+        p = getattr(p, "_parent", None)
+    if comps:
+        env = dict(env)
+        for c in reversed(comps):
+            for g in c.generators:
+                caller.bind(g.target, caller.elem_status(g.iter, env), env)
     if caller.status(arg, env) == FRESH:
         return True
     # element of a captured dict/array: look for the reaching assignment in the enclosing function
